@@ -339,7 +339,7 @@ def rule_c05_protocol(ctx):
     of the following statements test) is a necessary condition here too (shared rules C05-R1, C05-R2)."""
     from . import c05
 
-    return [c05.rule_r1(ctx), c05.rule_r23(ctx)]
+    return [c05.rule_r1(ctx), c05.rule_r23(ctx), c05.rule_r6(ctx)]
 
 
 RULES = [("C07-R1", rule_r1), ("C07-R2", rule_r2), ("C07-R3", rule_r3), ("C07-R4", rule_r4), ("C05-protocol", rule_c05_protocol)]
